@@ -120,11 +120,26 @@ fn s_mutants(t: &mut Tape, ctx: &mut Ctx) -> Result<(), Failure> {
     check_text(&m, ctx, layout, "token-mutant")
 }
 
+/// Rejected near-miss edits: analysis errors with real spans (single-line, multi-line, first / last line).
+fn s_nearmiss(t: &mut Tape, ctx: &mut Ctx) -> Result<(), Failure> {
+    let Some(e) = crate::checks::nearmiss_streams::edited(t, ctx, true)? else { return Ok(()) };
+    let (m, layout) = relayout(t, &e.text);
+    check_text(&m, ctx, layout, "near-miss-edit")
+}
+
 pub fn streams() -> Vec<Stream> {
     vec![Stream {
+        name: "nearmiss",
+        kind: Kind::Tape {
+            cases: |t: Tier| t.pick(150_000, 3_000_000),
+            max_len: 340,
+            f: s_nearmiss,
+        },
+        isolate: false,
+    }, Stream {
         name: "mutants",
         kind: Kind::Tape {
-            cases: |t: Tier| t.pick(20_000, 1_000_000),
+            cases: |t: Tier| t.pick(100_000, 3_000_000),
             max_len: 96,
             f: s_mutants,
         },
@@ -138,6 +153,6 @@ pub fn def() -> PropertyDef {
         rule: "rejected texts = token mutants of shipped examples and generated programs (and, stream nearmiss, single typed edits of generated well-typed programs), re-laid-out with LF/CRLF/mixed line ends, tabs, non-ASCII comment prefix, missing trailing newline; oracle = validity predicate on the rendered message: `pad |`, then `N | text` lines with consecutive N inside the file each quoting source line N verbatim (split at \\n, one trailing \\r removed), then `pad |...^^^ description`, and the message ends with the Display of the underlying Error obtained independently through parse::Program::parse_from_str / ast::Program::analyze. evaluations = rejected texts checked. Non-trivial = error not on line 1, or multi-line span, or non-LF / tab / non-ASCII layout; distinct by digest of the text.",
         assumptions: &["the underline column is not checked (the property does not state it)", "texts on which the compiler panics are left to C06"],
         streams,
-        health: &[("mutants", "analysis-error", 30)],
+        health: &[("mutants", "analysis-error", 30), ("nearmiss", "analysis-error", 300), ("nearmiss", "multi-line-span", 20)],
     }
 }
